@@ -1229,10 +1229,10 @@ package zygo
 // are popped (the loop's cleanup pops the loop's scope itself), then control goes to the
 // loop's break / continue target
 //@ func (*Generator).GenerateBreak
-//@ C02 assert unwinds-to-loop-scope @before call AddInstruction[0]: arg0 == gen && typeis(arg1, *BreakInstr) && arg1.(*BreakInstr).loop == loop && arg1.(*BreakInstr).pos == 0
+//@ C02,C04 assert unwinds-to-loop-scope @before call AddInstruction[0]: arg0 == gen && typeis(arg1, *BreakInstr) && arg1.(*BreakInstr).loop == loop && arg1.(*BreakInstr).pos == 0
 //@ |  && arg1.(*BreakInstr).scopesToPop >= 0 && (0 <= loop.scopeDepth && loop.scopeDepth < gen.scopes && gen.scopes <= 1000000 ==> gen.scopes - arg1.(*BreakInstr).scopesToPop == loop.scopeDepth + 1)
 //@ func (*Generator).GenerateContinue
-//@ C02 assert unwinds-to-loop-scope @before call AddInstruction[0]: arg0 == gen && typeis(arg1, *ContinueInstr) && arg1.(*ContinueInstr).loop == loop && arg1.(*ContinueInstr).pos == 0
+//@ C02,C04 assert unwinds-to-loop-scope @before call AddInstruction[0]: arg0 == gen && typeis(arg1, *ContinueInstr) && arg1.(*ContinueInstr).loop == loop && arg1.(*ContinueInstr).pos == 0
 //@ |  && arg1.(*ContinueInstr).scopesToPop >= 0 && (0 <= loop.scopeDepth && loop.scopeDepth < gen.scopes && gen.scopes <= 1000000 ==> gen.scopes - arg1.(*ContinueInstr).scopesToPop == loop.scopeDepth + 1)
 //@ func (*BreakInstr).Execute
 //@ requires typeinv[Zlisp] distinctStacks(env)
@@ -1505,3 +1505,23 @@ package zygo
 //@ ghost rejected := ret0 != nil @after call TypeCheckField[0]
 //@ C17 ensures rejection-is-reported: r0 == nil ==> !rejected
 //@ C17 loop 0 invariant !rejected
+
+// C13: tokens are cut by the runes, not by the chunks. The atom buffer is flushed into a token
+// only by the rune state machine (when a rune ends the atom); nothing else may flush it, so a
+// piece of text that ends inside an atom leaves the atom open until the next piece arrives.
+//@ callers C13 (*Lexer).dumpBuffer | (*Lexer).LexNextRune
+//@ callers C13 (*Lexer).AppendToken | (*Lexer).LexNextRune, (*Lexer).dumpBuffer, (*Lexer).dumpComment, (*Lexer).dumpString, (*Lexer).dumpBacktickString
+
+// C02: an argument expression that is not a bare symbol is compiled and run for every
+// evaluation of the call (a literal array argument is a new array each time); only symbols
+// are looked up directly.
+//@ func (*Zlisp).EvalCallExpression
+//@ ghost compiledArg := false @entry
+//@ ghost compiledArg := true @after call Generate[0]
+//@ C02 assert compiles-the-argument-expression @before call Generate[0]: arg0 != nil && arg1 == expr
+//@ C02 ensures compound-argument-is-evaluated: r1 == nil && expr != nil && !typeis(expr, *SexpSymbol) ==> compiledArg
+
+// C15: an unquote form never takes the rebuild path: when the marker of a list template is
+// pushed, the form is neither (unquote x) nor (unquote-splicing x)
+//@ func (*Generator).generateSyntaxQuoteList
+//@ C15 assert unquote-forms-are-substituted @before call AddInstruction[1]: !(len(quotebody) == 2 && typeis(quotebody[0], *SexpSymbol) && (quotebody[0].(*SexpSymbol).name == "unquote" || quotebody[0].(*SexpSymbol).name == "unquote-splicing"))
